@@ -1,0 +1,16 @@
+//go:build verif
+
+// Package verifhook exposes internals to the external verification harness.
+// It is compiled only with the "verif" build tag.
+package verifhook
+
+import (
+	"github.com/gin-gonic/gin"
+	"k3l.io/go-eigentrust/internal/playground"
+)
+
+// PlaygroundAddRoutes re-exports internal/playground.AddRoutes
+// (an external module may not import an internal package).
+func PlaygroundAddRoutes(routes gin.IRoutes) {
+	playground.AddRoutes(routes)
+}
